@@ -592,7 +592,12 @@ class Runner:
                 self.idle_unobservable += 1
             elif not idle:
                 raise Fail("tracker_idle_after_ended", str(getattr(getattr(slot, "transmission", None), "type", "not idle")), "Idle")
-            sid = bytes(out.stream_no)
+            # the statement speaks of the tracker's id; the id stamped on the burst that closed the transmission is the
+            # library's choice (closed transmission's id or the new idle one) and is only used when the tracker's own id
+            # is not observable
+            sid = _public_stream_id(slot)
+            if sid is None:
+                sid = bytes(out.stream_no)
             if self.exact_ids:
                 if sid in self.seen_ids:
                     raise Fail("fresh_stream_id_after_ended", {"stream_no": sid.hex()}, "an id never used before in this history")
